@@ -61,6 +61,9 @@ class C11(Prop):
             "of the first LAST was compared with the limit or horizon)")
     quick_runs = 24
 
+    def env_names(self) -> List[str]:
+        return TL_ENVS + HZ_ENVS
+
     def select_configs(self, adapter: Any, tier: str) -> List[Dict[str, Any]]:
         cfgs = adapter.configs()
         if adapter.name in TL_ENVS:
